@@ -249,7 +249,15 @@ class Interp(_Base):
             return [(st, ("raise", self.raised("arity", "TypeError", node,
                                                "unexpected keyword " + unknown_kw[0])))]
         if fv.frame_depth is not None:
-            frame["__parent__"] = fv.frame_depth
+            live = fv.frame_depth < len(st.frames) and \
+                st.frames[fv.frame_depth].get("__fid__") == getattr(fv, "def_fid", None)
+            if live:
+                frame["__parent__"] = fv.frame_depth
+            else:
+                # the defining frame has returned: read the captured variables
+                for k, v in (getattr(fv, "def_frame", None) or {}).items():
+                    if not k.startswith("__"):
+                        frame.setdefault(k, v)
         if fv.closure:
             for k, v in fv.closure.items():
                 frame.setdefault(k, v)
@@ -338,6 +346,9 @@ class Interp(_Base):
         R = lambda v: [(st, v)]   # noqa
         if name == "noop":
             return R(NONE)
+        if name in ("perf_counter", "monotonic", "time", "process_time", "module:time.perf_counter",
+                    "module:time.time", "module:time.monotonic"):
+            return R(FloatV(("clock",)))
         if name in ("copy", "deepcopy", "module:copy.copy", "module:copy.deepcopy"):
             v = args[0] if args else NONE
             if isinstance(v, RefV):
@@ -930,7 +941,12 @@ class Interp(_Base):
 
     def st_FunctionDef(self, n, st):
         depth = len(st.frames) - 1
-        self.set_var(st, n.name, FuncV(self.cur_mod[-1], n, frame_depth=depth))
+        self._fid = getattr(self, "_fid", 0) + 1
+        st.frames[-1].setdefault("__fid__", self._fid)
+        fv = FuncV(self.cur_mod[-1], n, frame_depth=depth)
+        fv.def_fid = st.frames[-1]["__fid__"]
+        fv.def_frame = st.frames[-1]
+        self.set_var(st, n.name, fv)
         return [(st, ("next",))]
 
     def st_Assert(self, n, st):
